@@ -131,6 +131,14 @@ impl InferenceRules {
     ///
     /// Returns [`Err`] if any of the inference rules error.
     pub fn infer(&mut self, value: &TCBoxedVal, state: &mut TypeCheckerState) -> Result<()> {
+        #[cfg(smlxl_storage_layout_extractor_verif)]
+        if crate::verif::ordering_on() {
+            let rules: Vec<&RulesItem> = self.rules.iter().collect();
+            for rule in crate::verif::order("tc.rules", rules, |r| format!("{:?}", r.rule)) {
+                rule.infer(value, state)?;
+            }
+            return Ok(());
+        }
         for rule in &self.rules {
             rule.infer(value, state)?;
         }
